@@ -1754,11 +1754,13 @@ def check_case(ctx, case, alone_budget=3, record=None, history=True):
     if A[0] != "ok":
         if unique and len(sample) == len(insts) and all(a[0] == "ok" for a in alone.values()):
             fail("bulk-error-not-in-any-single", f"index A stops ({A[1:]}) but every instance compiles alone")
-        elif case["malformed"] is None and "Error while parsing cell" in str(A[2:]) and all(expected_texts(case, c, i) is not None for c, i in insts):
-            # the generator writes well-formed workbooks only (unless told otherwise): every template expression is defined on the
-            # values the property gives the instance, every pop has an element to pop.  (A well-formed workbook may still stop for
-            # reasons of flow structure - a loop all of whose rows are excluded leaves nothing to connect to -: not judged.)
-            fail("valid-workbook-cell-error", f"a template expression of a well-formed workbook fails ({A[1:]}): it is defined when the instance works on its own values")
+        elif case["malformed"] is None and re.search(r'Error while parsing cell "(AL|BM)', str(A[2:])) \
+                and all(expected_texts(case, c, i) is not None for c, i in insts):
+            # a cell of a mutating feature: the generator writes it so that it is defined on the values the property gives the instance
+            # (every unguarded pop has an element to pop when the instance works on lists of its own).  Other stops of a well-formed
+            # workbook are not judged: a loop all of whose rows are excluded leaves nothing to connect to; {@ x @} of the text "10" is
+            # the number 10, on which |length fails.
+            fail("mutating-cell-fails", f"a cell that changes a list in place fails ({A[1:]}): it is defined when the instance works on its own values")
         return nfail
     fa = A[1]["flows"]
     got_names = [f["name"] for f in fa]
